@@ -1,5 +1,6 @@
 (* Syntax/Entry.v — entry points for the C02 correspondence. *)
-From MV Require Import Base.Strs Syntax.Lexer Syntax.Parser Syntax.Render Syntax.Yield.
+From MV Require Import Base.Strs Syntax.Lexer Syntax.Parser Syntax.Render Syntax.Yield
+  Syntax.Trivia Syntax.RawPrint Syntax.TriviaRender.
 Open Scope N_scope.
 
 Definition run (fn : str) (args : list str) : str :=
@@ -9,6 +10,9 @@ Definition run (fn : str) (args : list str) : str :=
       else if str_eqb fn (s2l "parse") then r_res (parse code)
       else if str_eqb fn (s2l "order_error") then
         match parse code with Ok b => bool_str (negb (order_ok_block b)) | _ => s2l "-" end
+      (* the trivia-annotated tree (which node every whitespace/comment/eol token is attached
+         to) and the text RawPrinter produces from it *)
+      else if str_eqb fn (s2l "trivia") then r_tres (parse_with_trivia code)
       else s2l "?"
   | _ => s2l "?"
   end.
